@@ -514,6 +514,21 @@ class Walker:
             src = defexpr
             if src is None and isinstance(node, ast.Assign):
                 src = node.value
+            stars = [i for i, e in enumerate(target.elts) if isinstance(e, ast.Starred)]
+            if len(stars) == 1 and val.kind == "const" and isinstance(val.value, (tuple, list)) and len(val.value) >= len(target.elts) - 1:
+                # a, *rest, z = <known sequence>
+                k = stars[0]
+                items = list(val.value)
+                tail = len(target.elts) - k - 1
+                for i, e in enumerate(target.elts):
+                    if i < k:
+                        sub_ = Const(items[i])
+                    elif i == k:
+                        sub_ = Const(items[k:len(items) - tail])
+                    else:
+                        sub_ = Const(items[len(items) - (len(target.elts) - i)])
+                    self._bind(st, e.value if isinstance(e, ast.Starred) else e, sub_, node)
+                return
             for i, e in enumerate(target.elts):
                 sub = UNK
                 if val.kind == "const" and isinstance(val.value, (tuple, list)) and len(val.value) == len(target.elts):
@@ -2502,7 +2517,13 @@ def const_value(prog: Program, node, func: Optional[FuncInfo], cls: Optional[Cla
         if owner is not None:
             a = prog.class_attr(owner, node.attr)
             if a is not None and not _attr_assigned_anywhere(prog, owner, node.attr):
-                return _literal(a)
+                lv = _literal(a)
+                if lv is NOCONST and isinstance(a, ast.Name) and a.id in owner.module.globals:
+                    # a class constant that names a module constant
+                    vals = owner.module.globals[a.id]
+                    if len(vals) == 1 and not _is_global_written(prog, owner.module, a.id):
+                        return _literal(vals[0])
+                return lv
     return NOCONST
 
 
